@@ -16,42 +16,54 @@ pub fn run_memread(world: &World, ops: &[MemReadOp]) -> Vec<MemReadOutcome> {
     let mut out = Vec::new();
     // the word-by-word strategy needs a stopped tracee
     let attached = PtraceDumper::suspend_thread(pid).is_ok();
+    // long-lived readers, one per strategy (a reader outlives many reads in the writer, too)
+    let mut vm = MemReader::for_virtual_mem(pid);
+    let mut file = MemReader::for_file(pid).ok();
+    let mut pt = MemReader::for_ptrace(pid);
     for op in ops {
         if let Ok(mut g) = LAST_PANIC.lock() {
             *g = None;
         }
+        let target_dead = crate::interpose::kernel_do(|k| k.dead).unwrap_or(false);
         let r = catch_unwind(AssertUnwindSafe(|| {
-            let reader = match op.strategy {
-                0 => Ok(MemReader::for_virtual_mem(pid)),
-                1 => MemReader::for_file(pid).map_err(|e| format!("{:?}", e)),
-                2 => Ok(MemReader::for_ptrace(pid)),
-                _ => Ok(MemReader::new(pid)),
+            let Some(len) = std::num::NonZeroUsize::new(op.len as usize) else {
+                return (true, Err("zero length".to_string()));
             };
-            match reader {
-                Err(e) => (true, Err(e)),
-                Ok(mut rd) => {
-                    let Some(len) = std::num::NonZeroUsize::new(op.len as usize) else {
-                        return (true, Err("zero length".to_string()));
-                    };
-                    (false, rd.read_to_vec(op.src as usize, len).map_err(|e| format!("{:?}", e.source)))
+            let mut auto;
+            let rd: &mut MemReader = match op.strategy {
+                0 => &mut vm,
+                1 => match file.as_mut() {
+                    Some(f) => f,
+                    None => return (true, Err("cannot open the memory file".to_string())),
+                },
+                2 => &mut pt,
+                _ => {
+                    auto = MemReader::new(pid);
+                    &mut auto
                 }
-            }
+            };
+            (false, rd.read_to_vec(op.src as usize, len).map_err(|e| format!("{:?}", e.source)))
         }));
+        let died_during = !target_dead && crate::interpose::kernel_do(|k| k.dead).unwrap_or(false);
         match r {
-            Ok((setup_failed, result)) => out.push(MemReadOutcome { op: op.clone(), result, panicked: false, setup_failed }),
+            Ok((setup_failed, result)) => out.push(MemReadOutcome { op: op.clone(), result, panicked: false, setup_failed, target_dead, died_during }),
             Err(_) => out.push(MemReadOutcome {
                 op: op.clone(),
                 result: Err(LAST_PANIC.lock().ok().and_then(|g| g.clone()).unwrap_or_default()),
                 panicked: true,
                 setup_failed: false,
+                target_dead,
+                died_during,
             }),
         }
     }
+    drop(file);
     if attached {
         let _ = PtraceDumper::resume_thread(pid);
     }
     out
 }
+
 pub fn run_elfid(world: &World, p: &ElfIdPlan) -> ElfOutcome {
     use minidump_writer::module_reader::{BuildId, ProcessReader, ReadFromModule, SoName};
     use std::os::unix::ffi::OsStrExt;
